@@ -21,6 +21,7 @@ Implementation: Single-file analysis with config-driven filtering and tree-sitte
 
 from src.core.base import BaseLintContext, BaseLintRule
 from src.core.linter_utils import (
+    get_metadata,
     has_file_content,
     is_ignored_path,
     load_linter_config,
@@ -127,7 +128,10 @@ class CloneAbuseRule(BaseLintRule):
         """
         if self._config_override is not None:
             return self._config_override
-        return load_linter_config(context, "clone-abuse", CloneAbuseConfig)
+        # The config loader normalises section names to underscores ("clone_abuse");
+        # metadata injected directly may still use the documented hyphenated spelling.
+        key = "clone_abuse" if "clone_abuse" in get_metadata(context) else "clone-abuse"
+        return load_linter_config(context, key, CloneAbuseConfig)
 
     def _build_violations(
         self,
